@@ -16,14 +16,6 @@
 using namespace vf;
 using c06::Z;
 
-static void flush_counts() {   // see w_c06.cc: counters of a crashed worker would be lost otherwise
-	if (!ctx.out || ctx.counts.empty()) return;
-	std::string c = "{"; bool first = true;
-	for (auto &kv : ctx.counts) { if (!first) c += ","; first = false; c += "\"" + jesc(kv.first) + "\":" + std::to_string(kv.second); }
-	c += "}";
-	fprintf(ctx.out, "{\"t\":\"count\",\"counts\":%s}\n", c.c_str()); fflush(ctx.out);
-	ctx.counts.clear();
-}
 
 static const char *CLS[3] = {"VTMF_dlog", "VTMF_dlog-canonical", "VTMF_dlog_GroupQR"};
 struct Group { int kind; std::string text; Z p, q, g; unsigned long F, G; };
@@ -274,7 +266,6 @@ static void run_orders(long &kcase) {
 			}
 			count("operations", w->ops); count("oracle_checks", w->checks);
 			case_end(d.str(), done > 0, sample, w->checks, done);
-			flush_counts();
 		}
 	}
 }
@@ -322,7 +313,6 @@ static void run_catalogue(long &kcase) {
 		op_mask_round(*w, r.below(3), true);
 		count("operations", w->ops); count("oracle_checks", w->checks); count("catalogue_histories");
 		case_end(d.str(), applied > 0, sample, w->checks, 1);
-		flush_counts();
 	}
 }
 
@@ -366,7 +356,6 @@ static void run_random(long &kcase) {
 		{ size_t pi = r.below(k), src = (pi + 1 + r.below(k - 1)) % k; if (!w->pl[pi].tainted && w->pl[pi].A.count(src)) op_update(*w, pi, src, w->pl[src].keytext, ACCEPT, "valid", "duplicate"); }
 		count("operations", w->ops); count("oracle_checks", w->checks); count("random_histories"); count("cov_random/" + std::string(CLS[kind]) + "/k=" + std::to_string(k));
 		case_end(d.str(), w->checks > 0, J().kv("history", "random").kv("class", CLS[kind]).kv("k", (long long)k).kv("operations", w->ops).kv("ops", shorten(w->hist, 400)).str(), w->checks, 1);
-		flush_counts();
 		g_record = true;
 	}
 }
@@ -381,7 +370,6 @@ int main(int argc, char **argv) {
 	run_orders(k);
 	run_catalogue(k);
 	run_random(k);
-	flush_counts();
 	finish();
 	return 0;
 }
